@@ -404,26 +404,38 @@ def check_apply(ctx, w):
     for b in chains[0]:
         if b.is_else or b.extra:
             continue
-        tables = sorted(set(re.findall(r'self\.(_RELOCATION_RECIPES_\w+)\.get\(reloc_type', ' '.join(U(s) for s in b.body))))
-        flavour = 'ANY'
-        for st in b.body:
-            if isinstance(st, ast.If):
-                c = expr.cond_str(st.test, env)
-                raises = any(isinstance(x, ast.Raise) for x in st.body)
-                if c == 'T(is_RELA(reloc))' and raises:
-                    flavour = 'REL'
-                elif c == '!T(is_RELA(reloc))' and raises:
-                    flavour = 'RELA'
-                elif c == 'T(is_RELA(reloc))' and not raises:
-                    flavour = 'SPLIT'
-                    body_t = re.findall(r'self\.(_RELOCATION_RECIPES_\w+)\.get', ' '.join(U(s) for s in st.body))
-                    else_t = re.findall(r'self\.(_RELOCATION_RECIPES_\w+)\.get', ' '.join(U(s) for s in st.orelse))
-                    tables = (body_t[0] if body_t else None, else_t[0] if else_t else None)
+        # per flavour (RELA / REL), read off the paths through the machine's arm: rejected, or looked up in which recipe table
+        per = {}
+        for p in paths.enum_paths(b.body):
+            facts = expr.Facts(expr.CP(expr.cond_str(t, env), pol) for t, pol in p.conds())
+            if facts.contradiction:
+                continue
+            tabs = re.findall(r'self\.(_RELOCATION_RECIPES_\w+)\.get\(reloc_type', ' '.join(U(x) for x in p.stmts()))
+            fl = facts.get('T(is_RELA(reloc))')
+            if p.end[0] == 'raise' and not tabs:
+                cl = p.conds()
+                if not (cl and 'is_RELA' in expr.cond_str(cl[-1][0], env)):
+                    continue    # rejected for another reason than the flavour (R_MIPS_64 with a composed type)
+                out = 'raise'
+            elif len(set(tabs)) == 1:
+                out = tabs[0]
+            else:
+                continue        # a path that neither rejects nor looks a recipe up (other checks of the arm)
+            for v in ((True, False) if fl is None else (fl,)):
+                per.setdefault(v, set()).add(out)
         for k in b.keys:
-            got[k] = (tables[0] if isinstance(tables, list) and len(tables) == 1 else tuple(tables) if isinstance(tables, tuple) else tuple(tables), flavour)
+            got[k] = dict((v, sorted(o)) for v, o in per.items())
+    def _want(tab, flav):
+        if flav == 'RELA':
+            return {True: [tab], False: ['raise']}
+        if flav == 'REL':
+            return {True: ['raise'], False: [tab]}
+        if flav == 'SPLIT':
+            return {True: [tab[0]], False: [tab[1]]}
+        return {True: [tab], False: [tab]}
     for mach, (tab, flav) in sorted(R.MACHINES.items()):
-        ctx.ob('W-APPLY', f.construct, 'machine %s -> %s, flavour %s' % (mach, tab, flav), got.get(mach) == (tab, flav),
-               got=got.get(mach), expected=(tab, flav), msg='recipe table or REL/RELA flavour guard for the machine differs from the psABI')
+        ctx.ob('W-APPLY', f.construct, 'machine %s -> %s, flavour %s' % (mach, tab, flav), got.get(mach) == _want(tab, flav),
+               got=got.get(mach), expected=_want(tab, flav), msg='recipe table or REL/RELA flavour guard for the machine differs from the psABI')
     archs = arch_values(w)
     for k in sorted(got):
         ctx.ob('G-ARCH', f.construct, k, k in archs, msg='machine string is not a value get_machine_arch can return: the branch is dead',
